@@ -106,8 +106,11 @@ def run_case(desc, ctx):
         else:
             d = G.gen_loss_desc(rng, kind, D, N)
         shapes = ["normal", "heavy", "tied", "walk", "normal"]  # keep default moments well defined
-        real, sim, kinds = G.gen_data(rng, N, D, E, d["filters"], shapes)
-        wit = {"loss": d, "N": N, "D": D, "E": E, "real": real, "sim": sim}
+        int_data = rng.random() < 0.15
+        real, sim, kinds = G.gen_data(rng, N, D, E, d["filters"], shapes, int_data=int_data)
+        if int_data:
+            cnt("integer_typed_data")
+        wit = {"loss": d, "N": N, "D": D, "E": E, "real": real, "sim": sim, "dtype": str(sim.dtype)}
 
         def bad(msg, extra=None):
             out["violations"].append({"msg": f"{kind}: {msg}", "witness": dict(wit, **(extra or {}))})
@@ -132,12 +135,12 @@ def run_case(desc, ctx):
         if digest(sim) != ds or digest(real) != dr:
             bad("compute_loss modified its inputs")
         try:
-            real2, sim2, _ = G.gen_data(rng, N, D, E, d["filters"], shapes)
+            real2, sim2, _ = G.gen_data(rng, N, D, E, d["filters"], shapes, int_data=int_data)
             for _k in range(int(rng.integers(1, 4))):
                 ev(loss, sim2, real2)
             # ... and on data of another length / ensemble size (shape-dependent state must not stick to the object)
             N3, E3 = N + int(rng.integers(3, 20)), int(rng.integers(1, 5))
-            real3, sim3, _ = G.gen_data(rng, N3, D, E3, d["filters"], shapes)
+            real3, sim3, _ = G.gen_data(rng, N3, D, E3, d["filters"], shapes, int_data=int_data)
             try:
                 ev(loss, sim3, real3)
             except Exception:  # noqa: BLE001  (e.g. a user matrix sized for other moments) - not this clause's subject
